@@ -22,6 +22,7 @@ import (
 	"strconv"
 	"strings"
 	"testing"
+	"time"
 
 	"github.com/nspcc-dev/neo-go/pkg/crypto/hash"
 	"github.com/nspcc-dev/neo-go/pkg/neotest"
@@ -445,26 +446,27 @@ func (w *world) monitor(line string, o opT, halt bool, ret string, prev nnsState
 			v("malformed-input-state-change", fmt.Sprintf("name %q data %q type %d changed the contract storage", name, o.data, o.typ))
 		}
 	}
-	// (d) nothing malformed is ever stored (read from the decoded storage scan after every transaction)
+	// (d) nothing malformed is ever stored: everything this transaction added to or changed in the decoded storage
 	if !o.dry && w.digest != prevDigest {
 		for r := range w.st.roots {
-			if !specName([]byte(r)) {
+			if !prev.roots[r] && !specName([]byte(r)) {
 				v("stored-malformed", fmt.Sprintf("the storage holds the malformed root %q", r))
 			}
 		}
 		for d := range w.st.doms {
-			if !specName([]byte(d)) {
+			if _, had := prev.doms[d]; !had && !specName([]byte(d)) {
 				v("stored-malformed", fmt.Sprintf("the storage holds the malformed name %q", d))
 			}
 		}
 		for k, ds := range w.st.recs {
 			p := strings.Split(k, "\x00")
 			typ, _ := strconv.Atoi(p[2])
-			if !specName([]byte(p[1])) {
+			old := prev.recs[k]
+			if len(old) == 0 && !specName([]byte(p[1])) {
 				v("stored-malformed", fmt.Sprintf("the storage holds a record of the malformed name %q", p[1]))
 			}
-			for _, d := range ds {
-				if !specData(typ, []byte(d)) {
+			for i, d := range ds {
+				if (i >= len(old) || old[i] != d) && !specData(typ, []byte(d)) {
 					v("stored-malformed", fmt.Sprintf("the storage holds the malformed type %d record %q of %q", typ, d, p[1]))
 				}
 			}
@@ -614,12 +616,21 @@ var baseSetup = []string{
 	"op tx u1 reg " + H("zz.aaa") + " u1",
 	"op tx u1 reg " + H("a.a.aaa") + " u1",
 	"op tx u2 reg " + H("9.zz9") + " u2",
-	"op tx u1 add " + H("9.z.aaa") + " 16 " + H("sub-name record held by z.aaa"),
+	// a record of a name two labels below z.aaa, held by z.aaa: "9.z.aaa" is not registered and cannot be
+	// (conflicting record), isAvailable("9.z.aaa") = false
+	"op tx u1 add " + H("x.9.z.aaa") + " 16 " + H("sub-name record held by z.aaa"),
 	"op tx u1 add " + H("zz.aaa") + " 16 " + H("first"),
 	"op tx u1 add " + H("zz.aaa") + " 16 " + H("second"),
+	// setBase holds one valid record of every type at id 0: setRecord's data validation is only reachable
+	// through an existing record of the same type and id ("invalid record id" otherwise)
+	"op tx u1 add " + H(setBase) + " 1 " + H("8.8.8.8"),
+	"op tx u1 add " + H(setBase) + " 28 " + H("2a00::1"),
+	"op tx u1 add " + H(setBase) + " 5 " + H("zz.aaa"),
+	"op tx u1 add " + H(setBase) + " 16 " + H("t0"),
 }
 
-const recBase = "zz.aaa" // registered to u1; dry addRecord calls never fill its slots
+const recBase = "zz.aaa" // registered to u1; dry addRecord calls never fill its slots (TXT ids 0 and 1 only)
+const setBase = "a.aaa"  // registered to u1; holds exactly one A, AAAA, CNAME and TXT record (id 0)
 
 // begin starts a case whose state is produced by the setup ops; the chain is reused when the previous case
 // had the same setup and executed dry runs only.
@@ -675,6 +686,7 @@ func (g *gen) nameOps(s string, all bool) {
 	h := H(s)
 	g.op("op dry - avail " + h)
 	g.op("op dry u1 add " + H(recBase) + " 5 " + h)
+	g.op("op dry u1 set " + H(setBase) + " 5 0 " + h)
 	if all {
 		g.op("op dry cmt tld " + h)
 		g.op("op dry u1 reg " + h + " u1")
@@ -951,8 +963,25 @@ func randBytes(rng *rand.Rand, n int, alpha string) string {
 	return string(b)
 }
 
+// dataOp: one datum through addRecord (free slot on recBase) and through setRecord (existing record of the same
+// type at id 0 on setBase); both go through checkRecord, but each has its own code after it
 func (g *gen) dataOp(typ int, s string) {
 	g.op(fmt.Sprintf("op dry u1 add %s %d %s", H(recBase), typ, H(s)))
+	g.op(fmt.Sprintf("op dry u1 set %s %d 0 %s", H(setBase), typ, H(s)))
+}
+
+// mine: the items of a list this shard is responsible for
+func (g *gen) mine(xs []string) []string {
+	if g.run.Shards <= 1 {
+		return xs
+	}
+	var out []string
+	for i, x := range xs {
+		if i%g.run.Shards == g.run.Shard {
+			out = append(out, x)
+		}
+	}
+	return out
 }
 
 func (g *gen) generate() {
@@ -963,7 +992,13 @@ func (g *gen) generate() {
 	if thorough {
 		full, more = 5, 7
 	}
-	g.exhaustive("names-exh", alphaName, 0, full, func(s string) { g.nameOps(s, true) })
+	// quick: the longest exhaustive stratum goes through isAvailable, CNAME addRecord and CNAME setRecord in full and
+	// through registerTLD / register / the name argument of addRecord for every 4th string; thorough: everything
+	kq := 0
+	g.exhaustive("names-exh", alphaName, 0, full, func(s string) {
+		kq++
+		g.nameOps(s, thorough || len(s) < full || kq%4 == 0)
+	})
 	if more > full {
 		g.exhaustive("names-exh-long", alphaName, full+1, more-1, func(s string) { g.nameOps(s, false) })
 		// the longest stratum (10^7 strings): the CNAME path alone decides the validator; isAvailable for every 8th string
@@ -972,6 +1007,9 @@ func (g *gen) generate() {
 			g.op("op dry u1 add " + H(recBase) + " 5 " + H(s))
 			if k++; k%8 == 0 {
 				g.op("op dry - avail " + H(s))
+			}
+			if k%8 == 4 {
+				g.op("op dry u1 set " + H(setBase) + " 5 0 " + H(s))
 			}
 		})
 	} else {
@@ -986,17 +1024,17 @@ func (g *gen) generate() {
 	// 3. A records
 	var v4 []string
 	g.ipv4Structured(rng, func(s string) { v4 = append(v4, s) })
-	if g.run.Shard == 0 {
-		g.chunked("ipv4-structured", 500, len(v4), func(i int) { g.dataOp(typA, v4[i]) })
-	}
+	v4 = g.mine(v4)
+	g.chunked("ipv4-structured", 500, len(v4), func(i int) { g.dataOp(typA, v4[i]) })
 	const alpha4 = "01259.+-"
 	// all "c.c.c.c" over the address alphabet (length 7 is the shortest accepted length)
-	if g.run.Shard == 0 {
-		g.chunked("ipv4-quads", 512, pow(len(alpha4), 4), func(i int) {
-			q := nthString(alpha4, 4, i)
-			g.dataOp(typA, string([]byte{q[0], '.', q[1], '.', q[2], '.', q[3]}))
-		})
+	var quads []string
+	for i := 0; i < pow(len(alpha4), 4); i++ {
+		q := nthString(alpha4, 4, i)
+		quads = append(quads, string([]byte{q[0], '.', q[1], '.', q[2], '.', q[3]}))
 	}
+	quads = g.mine(quads)
+	g.chunked("ipv4-quads", 512, len(quads), func(i int) { g.dataOp(typA, quads[i]) })
 	if thorough {
 		g.exhaustive("ipv4-exh", alpha4, 0, 7, func(s string) { g.dataOp(typA, s) })
 	}
@@ -1018,24 +1056,18 @@ func (g *gen) generate() {
 	// 4. AAAA records
 	var v6 []string
 	g.ipv6Structured(rng, func(s string) { v6 = append(v6, s) })
-	if g.run.Shard == 0 {
-		g.chunked("ipv6-structured", 500, len(v6), func(i int) { g.dataOp(typAAAA, v6[i]) })
-	}
+	v6 = g.mine(v6)
+	g.chunked("ipv6-structured", 500, len(v6), func(i int) { g.dataOp(typAAAA, v6[i]) })
 	const alpha6 = "0f:+"
-	if g.run.Shard == 0 {
-		// every colon layout after a valid first group, short tails
-		cnt := 0
-		for l := 0; l <= 6; l++ {
-			cnt += pow(len(alpha6), l)
+	// every colon layout after a valid first group, short tails
+	var tails []string
+	for l := 0; l <= 6; l++ {
+		for i := 0; i < pow(len(alpha6), l); i++ {
+			tails = append(tails, nthString(alpha6, l, i))
 		}
-		var tails []string
-		for l := 0; l <= 6; l++ {
-			for i := 0; i < pow(len(alpha6), l); i++ {
-				tails = append(tails, nthString(alpha6, l, i))
-			}
-		}
-		g.chunked("ipv6-tails", 500, len(tails), func(i int) { g.dataOp(typAAAA, "2a0f"+tails[i]) })
 	}
+	tails = g.mine(tails)
+	g.chunked("ipv6-tails", 500, len(tails), func(i int) { g.dataOp(typAAAA, "2a0f"+tails[i]) })
 	if thorough {
 		g.exhaustive("ipv6-exh", "20aF:+g-", 0, 7, func(s string) { g.dataOp(typAAAA, s) })
 	}
@@ -1075,6 +1107,22 @@ func (g *gen) generate() {
 				g.op(fmt.Sprintf("op dry u1 set %s %d 2 %s", H(recBase), t, H(d)))
 			}
 		}
+		// setRecord: ids, signer sets, the identical value, the value of another id, a second CNAME
+		for _, t := range []int{typA, typCNAME, typTXT, typAAAA} {
+			good := map[int]string{typA: "8.8.8.8", typCNAME: "zz.aaa", typTXT: "t0", typAAAA: "2a00::1"}[t]
+			other := map[int]string{typA: "1.2.3.4", typCNAME: "z.aaa", typTXT: "t1", typAAAA: "2a00::2"}[t]
+			for _, sg := range []string{"-", "u1", "u2", "cmt", "u1,u2"} {
+				for _, id := range []int{0, 1, 15, 16, 255} {
+					g.op(fmt.Sprintf("op dry %s set %s %d %d %s", sg, H(setBase), t, id, H(good)))
+					g.op(fmt.Sprintf("op dry %s set %s %d %d %s", sg, H(setBase), t, id, H(other)))
+				}
+				g.op(fmt.Sprintf("op dry %s add %s %d %s", sg, H(setBase), t, H(other)))
+				g.op(fmt.Sprintf("op dry %s add %s %d %s", sg, H(setBase), t, H(good)))
+			}
+		}
+		g.op(fmt.Sprintf("op dry u1 set %s 16 0 %s", H(recBase), H("second")))
+		g.op(fmt.Sprintf("op dry u1 set %s 16 1 %s", H(recBase), H("first")))
+		g.op(fmt.Sprintf("op dry u1 set %s 16 1 %s", H(recBase), H("second")))
 		for _, nm := range []string{"zz.aaa", "a.aaa", "9.z.aaa", "x.9.z.aaa", "q.zz.aaa", "aaa", "zz9", "9.zz9", "b.zz9", "x.b.zz9", "ZZ.aaa", "zz.aaa.", ""} {
 			for _, sg := range []string{"-", "u1", "u2", "cmt", "u1,u2", "cmt,u3"} {
 				g.op(fmt.Sprintf("op dry %s add %s 16 %s", sg, H(nm), H("t")))
@@ -1155,6 +1203,42 @@ func (g *gen) history(rng *rand.Rand) {
 				}
 			}
 			g.op(fmt.Sprintf("op tx %s reg %s u%d", s, H(nm), owner))
+		case r < 52:
+			// setRecord on a record that exists (same type, id in range): the only way to its data validation.
+			// Valid and malformed data alike; committed, so an accepted malformed value shows in the storage too.
+			var keys []string
+			for k, ds := range w.st.recs {
+				if p := strings.Split(k, "\x00"); len(ds) > 0 && p[0] == p[1] {
+					keys = append(keys, k)
+				}
+			}
+			sort.Strings(keys)
+			if len(keys) == 0 {
+				ks := known()
+				nm := hx.Pick(rng, ks)
+				if ow := w.st.doms[nm]; ow != 0 {
+					typ := hx.Pick(rng, []int{typA, typCNAME, typTXT, typAAAA})
+					g.op(fmt.Sprintf("op tx u%d add %s %d %s", ow, H(nm), typ, H(datas[typ][0])))
+				}
+				break
+			}
+			k := hx.Pick(rng, keys)
+			p := strings.Split(k, "\x00")
+			typ, _ := strconv.Atoi(p[2])
+			id := rng.IntN(len(w.st.recs[k]))
+			if rng.IntN(8) == 0 {
+				id = len(w.st.recs[k])
+			}
+			s := fmt.Sprintf("u%d", w.st.doms[p[1]])
+			if rng.IntN(6) == 0 {
+				s = sg
+			}
+			d := hx.Pick(rng, datas[typ])
+			if rng.IntN(5) == 0 {
+				d = g.structuredName(rng)
+			}
+			g.op(fmt.Sprintf("op tx %s set %s %d %d %s", s, H(p[1]), typ, id, H(d)))
+			g.op(fmt.Sprintf("op dry - get %s %d", H(p[1]), typ))
 		case r < 80:
 			ks := known()
 			nm := hx.Pick(rng, ks)
@@ -1232,5 +1316,8 @@ func TestRun(t *testing.T) {
 		return
 	}
 	g := &gen{t: t, run: run}
+	t0 := time.Now()
 	g.generate()
+	// wall seconds of this shard's generation (shows whether the shards are balanced)
+	run.Stats[fmt.Sprintf("seconds.shard%02d", run.Shard)] = int(time.Since(t0).Seconds() + 0.5)
 }
